@@ -17,7 +17,7 @@ REQUIRED = ["pe_total_match", "pe_total_build", "pe_total_validate", "pe_total_r
             "credentials_required_of_descriptors", "build_reports_missing_credentials", "validate_rejects_without_complete_selection",
             "wallet_verifier_agree_partial", "wallet_verifier_disagree_witness",
             "old_code_max_zero_selects_all", "old_code_min_above_max_returns_partial",
-            "fact_apply_max_test_first", "fact_apply_rejects_min_above_max",
+            "fact_regex_timeout_bounded", "fact_apply_max_test_first", "fact_apply_rejects_min_above_max",
             "old_code_panics_array_pattern", "old_code_type_only_filter_matches_any_array",
             "old_code_panics_pick_min_only", "old_code_accepts_shadowed_entry",
             "fact_array_case_guarded", "fact_apply_derefs_guarded", "fact_apply_max_guarded",
@@ -353,6 +353,14 @@ def run(ctx):
             continue
         pd = case["def"]
         creds = {c["name"]: c for c in case["creds"]}
+        if kind == "validate" and op.get("re"):
+            retbl = dict(retbl)
+            retbl.update({(p_, s_): (k_, v_) for p_, s_, k_, v_ in op["re"]})
+        if line.endswith(" hang"):
+            pats = sorted({f["filter"]["pattern"] for d in pd["descs"] for f in d.get("fields", []) if "pattern" in f.get("filter", {})})
+            report("C12:hang:matchFilter:regexp-without-timeout",
+                   f"{kind} did not return within the watchdog time (patterns {pats}: catastrophic backtracking on a wallet value)", i)
+            continue
         if " panic:" in line:
             site = line.split("panic:", 1)[1].split()[0]
             shape = "other"
@@ -529,6 +537,27 @@ def run(ctx):
                             report("C12:wallet-verifier-disagree:" + cls, f"verifier rejects ({cls}) the wallet's own submission", i, True)
                     except Undecided:
                         counts["oracle-undecided"] += 1
+            if op.get("mut") == "orig" and unique_ids and all(m["fmt"] for m in op.get("sub", [])):
+                # the wallet's own descriptor map: every path resolves inside the wallet's own presentation, to a credential
+                # that satisfies the descriptor the entry names
+                by_name = {}
+                for row, views in zip(op.get("pres", []), pres):
+                    for x, v in zip(row, views):
+                        by_name[x.get("ref") or x["full"]["name"]] = v
+                descs_by_id = {d["id"]: d for d in pd["descs"]}
+                for m in op.get("sub", []):
+                    landed = ref_resolve(op, m)
+                    if landed is None:
+                        report("C12:wallet-path-does-not-resolve-in-own-presentation",
+                               f"the wallet mapped {m['id']} to {m['path']}, which does not resolve to a credential in its own presentation", i, True)
+                    elif landed in by_name and m["id"] in descs_by_id:
+                        try:
+                            if not satisfies(pd, descs_by_id[m["id"]], by_name[landed], retbl):
+                                report("C12:wallet-path-points-at-unsatisfying-credential",
+                                       f"the wallet mapped {m['id']} to {m['path']} = {landed}, which does not satisfy that descriptor", i, True)
+                            counts["own-path-checked"] += 1
+                        except Undecided:
+                            counts["oracle-undecided"] += 1
             if op.get("mut") == "orig" and mok:
                 counts["agree:accepted"] += 1
         elif kind == "fields":
